@@ -102,6 +102,56 @@ theorem env_workdir_verbatim_create_command (wd : Str) (env : List (Str × Str))
 example : CreateCommandVerbatim "a b".toList [("K".toList, "$HOME `id` \"q\"".toList)] "echo hi".toList :=
   env_workdir_verbatim_create_command _ _ _ (by decide)
 
+/-- **the redirections of `create_command` quote their file names** (`< f`, `> f`, `2>f`): generated obligation — fails to check as
+    soon as one of them stops using `shlex.quote`; hence each is verbatim for every file name -/
+theorem redirections_quoted :
+    [cc_stdin, cc_stdout, cc_stderr].all (fun t => allShQuoted t && placed ⟨.unq, false⟩ t) = true := by decide
+
+theorem redirections_verbatim (t : Template) (ht : t ∈ [cc_stdin, cc_stdout, cc_stderr]) (st : LexSt) (hst : shape st = ⟨.unq, false⟩)
+    (f : Str) : feed st (render t [f]) = specFeed st [f] t := by
+  have h := List.all_eq_true.mp redirections_quoted t ht
+  simp only [Bool.and_eq_true] at h
+  refine feed_render_quoted t st [f] h.1 (by rw [hst]; exact h.2) ?_
+  simp only [List.mem_cons, List.mem_nil_iff, or_false] at ht
+  rcases ht with rfl | rfl | rfl <;> simp [safeArgsOk, cc_stdin, cc_stdout, cc_stderr]
+
+/-- `cmd > <quote f>` after a command word: the shell sees the redirection operator and the file name `f` as one literal word -/
+example : lexLine (['c', 'a', 't'] ++ render cc_stdout ["a b$x".toList]) =
+    .ok [W ['c', 'a', 't'], .op ['>'], W "a b$x".toList] := by decide
+
+/-! ### the built-in queue-manager template -/
+
+/-- the job script `QueueManagerConnector.run` submits with the built-in template `#!/bin/sh\n\n{{streamflow_command}}`:
+    the template text (extracted from queue_manager.py) followed by `create_command(...)` -/
+def queueManagerDefaultScript (wd : Str) (env : List (Str × Str)) (cmd : Str) : Str :=
+  qm_default_prefix ++ createCommand (some wd) env cmd
+
+/-- **The built-in queue-manager job script runs the command with the working directory and environment verbatim**: the shebang
+    line is a comment for `sh`, the rest is exactly `create_command`'s text — for every directory, every value, every command. -/
+theorem queue_manager_default_script_verbatim (wd : Str) (env : List (Str × Str)) (cmd : Str) (items : List Item) (e : Env)
+    (hk : ∀ kv ∈ env, keyOk kv.1 = true) (hcmd : lexLine cmd = .ok items) :
+    ∃ pre, lexLine (queueManagerDefaultScript wd env cmd) = .ok (pre ++ items) ∧
+      runItems e (pre ++ items) = runItems { cwd := some wd, vars := applyEnv e.vars env } items := by
+  obtain ⟨pre, h1, h2⟩ := env_workdir_verbatim_create_command wd env cmd hk items e hcmd
+  have hpre : feed init qm_default_prefix = { out := [.op ['\n'], .op ['\n']] } := by decide
+  refine ⟨[.op ['\n'], .op ['\n']] ++ pre, ?_, ?_⟩
+  · unfold queueManagerDefaultScript
+    rw [lexLine_append _ _ _ hpre, h1]
+    simp [prefixRes]
+  · rw [← h2]
+    have : ∀ rest : List Item, runItems e ([.op ['\n'], .op ['\n']] ++ rest) = runItems e rest := by
+      intro rest
+      unfold runItems
+      have hs : splitSeq ([Item.op ['\n'], Item.op ['\n']] ++ rest) = [] :: [] :: splitSeq rest := by
+        simp [splitSeq, isSep]
+      rw [hs]
+      simp [runSegs, wordsOf, runSimple]
+    rw [List.append_assoc, this]
+
+example : ∃ pre, lexLine (queueManagerDefaultScript "a b".toList [("K".toList, "$HOME".toList)] "echo hi".toList)
+    = .ok (pre ++ [W "echo".toList, W "hi".toList]) :=
+  (queue_manager_default_script_verbatim _ _ _ _ {} (by decide) (by decide)).imp fun _ h => h.1
+
 /-- `CommandTemplateMap.get_command` renders `export K="v"` the same way: the value `$HOME` is expanded, a value with
     `"` unbalances the script (known finding) -/
 theorem get_command_env_false :
